@@ -180,7 +180,9 @@ async def scenario(case, out, stats, fps, samples, incon):
 
         async def consume(self):
             if self.queue_name == "qfail" and fail.is_set():
-                raise RuntimeError("consumer failure (injected)")
+                # (failure texts as brokers really produce them: reprs of dicts, format-like fragments, lone braces)
+                texts = ["consumer failure (injected)", "cannot decode message parameters: {'ttl': 'soon'}", "unexpected frame {", "bad reply }{ %s %(x)s {0} {queue_name}", ""]
+                raise RuntimeError(texts[case["seed"] % len(texts)])
             return await super().consume()
 
     class Broker(InMemoryMessageBroker):
